@@ -84,3 +84,35 @@ def run_array_behaviours(chk, num=60, procs=4, depth=8):
                         'states': r['states'], 'behaviours': len(r['hists']), 'wall_s': round(r['wall'], 2)})
     chk.states += r['states']
     chk.queue(edges.programs_from_array_histories(r['hists']), 'tlc-simulated-array-behaviours')
+
+
+# Non-vacuity of the MC_Core theorems: the antecedents each family is there to exercise (measured; spec/MC_CoreVac.tla)
+VAC_EXPECT = {
+    'stream': ['Raise', 'Updates', 'NewObject', 'ReadOk', 'ReadFails', 'FindHit', 'FindMiss', 'Mirror', 'MirrorChanges',
+               'ModeIndependent', 'Immutable'],
+    'grow': ['Raise', 'Updates', 'PosToEnd', 'PosAfterWrite', 'Mirror', 'MirrorChanges'],
+    'setitem': ['Raise', 'Updates', 'FrameOneBit', 'PosToZero', 'PosKept', 'Mirror', 'MirrorChanges'],
+    'bitwise': ['Raise', 'Updates', 'NewObject', 'FrameLength', 'ModeIndependent'],
+    'set': ['Raise', 'Updates', 'FrameOneBit', 'Mirror', 'MirrorChanges'],
+    'compare': ['Raise', 'NewObject', 'ModeIndependent', 'Immutable'],
+    'range': ['Raise', 'Updates', 'FrameWindow', 'Mirror'],
+    'del': ['Raise', 'Updates', 'PosToZero', 'PosKept', 'Mirror', 'MirrorChanges'],
+}
+
+
+def mc_core_vacuity(chk, family, L=2, LX=1):
+    """Which antecedents of the MC_Core theorems are met somewhere in the enumerated space of this family; the ones the
+    family is there to exercise must be (a theorem checked only vacuously is a machinery failure)."""
+    import re
+    from harness import tlc
+    from harness.tlc import MachineryError
+    cfg = edges.write_cfg(chk.wd, f'MC_CoreVac_{family}.cfg', {'Family': f'"{family}"', 'L': L, 'LX': LX}, spec='Spec')
+    r = tlc.model_check('MC_CoreVac.tla', cfg, chk.wd, workers=1, heap='4g')
+    met = {m.group(1): m.group(2) == 'TRUE' for m in re.finditer(r'<<"VAC", "(\w+)", (TRUE|FALSE)>>', r['out'])}
+    if not r['ok'] or not met:
+        raise MachineryError('vacuity control failed to run:\n' + r['out'][-1500:])
+    missing = [a for a in VAC_EXPECT[family] if not met.get(a)]
+    chk.mc_runs.append({'module': 'MC_CoreVac.tla', 'cfg': f'{family} L={L} LX={LX}', 'states': r['states'], 'wall_s': r['wall'],
+                        'antecedents_met': sorted(k for k, v in met.items() if v)})
+    if missing:
+        raise MachineryError(f'theorems of MC_Core would be checked vacuously for family {family}: antecedents never met: {missing}')
